@@ -98,8 +98,14 @@ def run(ctx: Ctx) -> None:
     for code, (n, src0, g) in ARRAYS.items():
       for src in [src0] + [f"{t}:1{int(t):02d}999" for t in other_types if t != src0[:2]]:
         for k in (1, 2, 3, 4, 5, 8):
-            for _ in range((40 if thorough else 4) if src == src0 else 1):
+            for rep in range((40 if thorough else 5) if src == src0 else 2):
                 idxs = rng.sample(range(0, 8), k)
+                # an element of another alternative of the code's regex (3150: the FC domain among zones), anywhere in the array: always once per
+                # sender and length (first, then last), otherwise at random; what the regex does not admit is skipped below
+                if rep < 2:
+                    idxs[0 if rep == 0 else -1] = 0xFC
+                elif rng.random() < 0.4:
+                    idxs[rng.randrange(k)] = rng.choice([0xFC, 0xFC, 0xF9, 0xFA, 0x0B, 0x0F])
                 es = [g(rng, i) for i in idxs]
                 line = f"045  I --- {src} --:------ {src} {code} {len(es) * n:03d} {''.join(es)}"
                 ctx.case(("array", line), True, f"array:{code}:{k}")
